@@ -20,6 +20,18 @@ def pointops_phase(ctx):
     return states, trans, detail, res
 
 
+def apalache_bonus(ctx):
+    """NewestWinsInd.tla: the integer core of NewestWins with an inductive invariant, decided by Apalache for
+    histories of any length (initiation, consecution, and a last-delivery-wins store that must be rejected).
+    A bonus: its outcome is recorded, it never decides the check."""
+    base = ["--cinit=CInit", "--inv=IndInv"]
+    return {
+        "initiation": vlib.run_apalache(ctx.sc, "NewestWinsInd", base + ["--init=Init", "--length=0"]),
+        "consecution": vlib.run_apalache(ctx.sc, "NewestWinsInd", base + ["--init=IndInit", "--length=1"]),
+        "last_delivery_wins_rejected": vlib.run_apalache(ctx.sc, "NewestWinsInd", base + ["--init=IndInit", "--next=NextLastWins", "--length=1"]) == "error",
+    }
+
+
 def run(ctx):
     cov, failures = run_stream(ctx, "C01")
     pstates, ptrans, pdetail, pres = pointops_phase(ctx)
@@ -28,6 +40,7 @@ def run(ctx):
     cov["role1"] = cov["role1"] + pdetail
     cov["evaluations"] += pres["evaluations"]
     cov["extra"]["pointops"] = pres.get("extra")
+    cov["extra"]["apalache_inductive_invariant_bonus"] = apalache_bonus(ctx)
     for f in pres["failures"]:
         if f["finding"] == "C01:collapse":
             f = dict(f)
